@@ -70,6 +70,11 @@ def _cases(R, G, t, n):
                        ('MARK', 0.1), ('NODIR', 0.1), ('SCANDOTDIR', 0.1), ('IGNORECASE', 0.1)):
             if R.random() < pr and not (tmpl and nm in ('MATCHBASE', 'IGNORECASE', 'NODIR', 'FOLLOW')):
                 fl |= getattr(G, nm)
+        if tmpl is None and R.random() < 0.08 and t.names:
+            p = G.escape(R.choice(sorted(t.names)))           # slash-less literal under MATCHBASE: the implicit prefix is the only globstar
+            fl = (fl | G.MATCHBASE) & ~(G.IGNORECASE | G.NODIR | G.FOLLOW)
+            if R.random() < 0.5:
+                fl &= ~(G.GLOBSTAR | G.GLOBSTARLONG)
         follows = bool(fl & G.FOLLOW) or (bool(fl & G.GLOBSTARLONG) and '***' in p)
         if t.cyclic and follows:
             # never walk a cycle with FOLLOW / `***` (it does not terminate): keep a few such
@@ -112,6 +117,8 @@ def run(ck: Check) -> int:
         # through the same root mechanism as the glob run (the dir_fd branch of _fs_match is separate code: seeded change C06c)
         rs, bits = K.run_real_match(G, t, cands, c.pats, fl, None, 'globfilter', c.mode if c.mode in ('root_dir', 'cwd', 'dir_fd') else 'root_dir')
         m = drv.ask(K.match_line(t, fl, pe, ee, cands))
+        if m == 'timeout':
+            return
         k6['evaluations'] += len(cands)
         if rs != 'ok' or not m.startswith('ok '):
             k6['disagree'].append({'stream': 'K6', **c.to_json(G, t), 'code': (rs, bits[:60]), 'model': m[:60]})
@@ -129,7 +136,10 @@ def run(ck: Check) -> int:
         # symlinked directory before its last piece
         long = bool(fl & G.GLOBSTARLONG)
         lits = [s for s in segs if s not in ('**', '***')]
-        if (not follows and fl & G.GLOBSTAR and not fl & (G.MATCHBASE | G.IGNORECASE | G.NODIR) and segs.count('**') == 1
+        # … or, under MATCHBASE, a single literal segment (the implicit `**/` prefix is the one globstar; GLOBSTAR may be off: seeded C06d)
+        mb_lit = bool(fl & G.MATCHBASE) and len(segs) == 1 and segs[0] not in ('**', '***', '.', '..') and not G.is_magic(segs[0], flags=fl) \
+            and not (long and fl & G.FOLLOW) and not follows and not fl & (G.IGNORECASE | G.NODIR) and '/' not in c.pats
+        if mb_lit or (not follows and fl & G.GLOBSTAR and not fl & (G.MATCHBASE | G.IGNORECASE | G.NODIR) and segs.count('**') == 1
                 and (long or '***' not in segs) and not c.pats.endswith('/') and not c.pats.startswith('/')
                 and all(s not in ('.', '..') and not G.is_magic(s, flags=fl) for s in lits)
                 and not any(segs[i] in ('**', '***') and segs[i + 1] in ('**', '***') for i in range(len(segs) - 1))):
